@@ -157,11 +157,14 @@ func decodeVariablesMetadata(source io.Reader, version primitive.ProtocolVersion
 			return nil, fmt.Errorf("cannot read RESULT Prepared variables metadata pk indices length: %w", err)
 		}
 		if pkCount > 0 {
-			metadata.PkIndices = make([]uint16, pkCount)
+			// the count comes from the wire: grow the slice as indices are actually read
+			metadata.PkIndices = make([]uint16, 0)
 			for i := 0; i < int(pkCount); i++ {
-				if metadata.PkIndices[i], err = primitive.ReadShort(source); err != nil {
+				var pkIndex uint16
+				if pkIndex, err = primitive.ReadShort(source); err != nil {
 					return nil, fmt.Errorf("cannot read RESULT Prepared variables metadata pk index element %d: %w", i, err)
 				}
+				metadata.PkIndices = append(metadata.PkIndices, pkIndex)
 			}
 		}
 	}
@@ -340,9 +343,13 @@ func decodeColumnsMetadata(globalTableSpec bool, columnCount int32, source io.Re
 			return nil, fmt.Errorf("cannot read column col global table: %w", err)
 		}
 	}
-	cols = make([]*ColumnMetadata, columnCount)
+	if columnCount < 0 {
+		return nil, fmt.Errorf("invalid column count: %d", columnCount)
+	}
+	// the count comes from the wire: grow the slice as column specs are actually read
+	cols = make([]*ColumnMetadata, 0)
 	for i := 0; i < int(columnCount); i++ {
-		cols[i] = &ColumnMetadata{}
+		cols = append(cols, &ColumnMetadata{})
 		if globalTableSpec {
 			cols[i].Keyspace = globalKsName
 		} else {
